@@ -90,30 +90,63 @@ def rule_implicit_wiring(rep: Report, repo: Repo):
     # (c) series_computation: both series families are built alike
     sc = repo.find("algorithm_parsing::series_computation", RULE)
     loc2 = lambda n: repo.loc("algorithm_parsing", n)
-    low = [d for d in nested_defs(sc) if d.name == "linear_operator_wrapped"]
-    ok = len(low) == 1
+    from .resolve import env_at as _ea, resolved as _res
+    from .sem import Scope as _Scope, canon as _canon, outcomes as _outcomes
+    low = [d for d in nested_defs(sc) if d.name == "linear_operator_wrapped" and d in sc.body]
+    ok = len(low) == 1 and len(low[0].args.args) == 1
     if ok:
-        lam = [n for n in ast.walk(low[0]) if isinstance(n, ast.Lambda)]
-        ok = len(lam) == 1 and lam[0].args.vararg is not None and not lam[0].args.args and \
-            norm(lam[0].body) == f"aslinearoperator({low[0].args.args[0].arg}[{lam[0].args.vararg.arg}])"
-    rep.check(ok, RULE, "algorithm_parsing::series_computation linear-operator view wraps the same element of the original series",
+        orig = low[0].args.args[0].arg
+        rets = [n for n in own_nodes(low[0]) if isinstance(n, ast.Return)]
+        ok = len(rets) == 1 and isinstance(rets[0].value, ast.Call) and call_name(rets[0].value) == "BlockSeries"
+        if ok:
+            ev = {k.arg: k.value for k in rets[0].value.keywords}.get("eval")
+            body = None
+            if isinstance(ev, ast.Lambda) and ev.args.vararg is not None and not ev.args.args:
+                body, idx = ev.body, ev.args.vararg.arg
+            elif isinstance(ev, ast.Name):
+                inner = [d for d in nested_defs(low[0]) if d.name == ev.id and d.args.vararg is not None and not d.args.args]
+                if len(inner) == 1:
+                    ro = [o for o in _outcomes(inner[0].body, None, env={}, expand=False)]
+                    if len(ro) == 1 and ro[0].kind == "return":
+                        body, idx = ro[0].value, inner[0].args.vararg.arg
+            ok = body is not None and norm(body) == f"aslinearoperator({orig}[{idx}])"
+    rep.check(bool(ok), RULE, "algorithm_parsing::series_computation linear-operator view wraps the same element of the original series",
               "", loc2(low[0] if low else sc))
     d = [x for x in nested_defs(sc) if x.name == "del_"]
     pops = [norm(n) for n in own_nodes(d[0]) if isinstance(n, ast.Call) and isinstance(n.func, ast.Attribute) and n.func.attr == "pop"] if d else []
     ok = sorted(pops) == sorted(["series[series_name].pop(index, None)", "linear_operator_series[series_name].pop(index, None)"])
     rep.check(ok, RULE, "algorithm_parsing::series_computation del_ drops the term from both caches", str(pops), loc2(d[0] if d else sc))
-    loops = [n for n in own_nodes(sc) if isinstance(n, ast.For) and norm(n.target) == "which"]
-    ok = len(loops) == 1 and norm(loops[0].iter) in ("(series, linear_operator_series)",)
+    # products: one loop over the two families, each product built from the same family's factors
+    loops = [n for n in own_nodes(sc) if isinstance(n, ast.For) and isinstance(n.target, ast.Name) and isinstance(n.iter, (ast.Tuple, ast.List))
+             and [norm(e) for e in n.iter.elts] == ["series", "linear_operator_series"]]
+    ok = len(loops) == 1
     if ok:
-        st = loops[0].body[0]
-        ok = isinstance(st, ast.Assign) and norm(st.targets[0]) == "which[product.name]" and isinstance(st.value, ast.Call) \
-            and call_name(st.value) == "cauchy_dot_product" and rtext(st.value.args[0], {}) == "*(which[_v0] for _v0 in product.terms)" \
-            and {k.arg: norm(k.value) for k in st.value.keywords} == {"operator": "operator", "hermitian": "product.hermitian"}
-    rep.check(ok, RULE, "algorithm_parsing::series_computation products are built identically for plain and linear-operator series",
+        W = loops[0].target.id
+        outer = getattr(loops[0], "_parent", None)
+        P = outer.target.id if isinstance(outer, ast.For) and isinstance(outer.target, ast.Name) and norm(outer.iter) == "products" else None
+        stores = [st for st in own_nodes(loops[0]) if isinstance(st, ast.Assign) and isinstance(st.targets[0], ast.Subscript) and norm(st.targets[0].value) == W]
+        ok = P is not None and len(stores) == 1 and norm(stores[0].targets[0].slice) == f"{P}.name"
+        if ok:
+            v = _canon(_res(stores[0].value, _ea(stores[0], sc)))
+            ok = isinstance(v, ast.Call) and call_name(v) == "cauchy_dot_product" and len(v.args) == 1 and isinstance(v.args[0], ast.Starred) \
+                and {k.arg: norm(k.value) for k in v.keywords} == {"operator": "operator", "hermitian": f"{P}.hermitian"}
+            if ok:
+                fac = v.args[0].value
+                ok = isinstance(fac, (ast.GeneratorExp, ast.ListComp)) and len(fac.generators) == 1 and not fac.generators[0].ifs \
+                    and norm(fac.generators[0].iter) == f"{P}.terms" and norm(fac.elt) == f"{W}[{norm(fac.generators[0].target)}]"
+    rep.check(bool(ok), RULE, "algorithm_parsing::series_computation products are built identically for plain and linear-operator series",
               "same factor names, operator and hermitian flag", loc2(loops[0] if loops else sc))
-    reg = [n for n in own_nodes(sc) if isinstance(n, ast.Assign) and norm(n.targets[0]) == "linear_operator_series[term.name]"]
-    ok = len(reg) == 1 and norm(reg[0].value) == "linear_operator_wrapped(series[term.name])"
-    rep.check(ok, RULE, "algorithm_parsing::series_computation every computed series gets its linear-operator view", "", loc2(reg[0] if reg else sc))
+    # every computed series gets its linear-operator view: linear_operator_series[term.name] = linear_operator_wrapped(<the series stored under term.name>)
+    reg = [n for n in own_nodes(sc) if isinstance(n, ast.Assign) and isinstance(n.targets[0], ast.Subscript)
+           and norm(n.targets[0].value) == "linear_operator_series" and isinstance(getattr(n, "_parent", None), ast.For)]
+    ok = len(reg) == 1 and isinstance(reg[0].value, ast.Call) and call_name(reg[0].value) == "linear_operator_wrapped" and len(reg[0].value.args) == 1
+    if ok:
+        key = norm(reg[0].targets[0].slice)
+        arg = reg[0].value.args[0]
+        same_loop = [n for n in reg[0]._parent.body if isinstance(n, ast.Assign) and isinstance(n.targets[0], ast.Subscript)
+                     and norm(n.targets[0].value) == "series" and norm(n.targets[0].slice) == key]
+        ok = len(same_loop) == 1 and (norm(arg) == f"series[{key}]" or norm(arg) == norm(same_loop[0].value))
+    rep.check(bool(ok), RULE, "algorithm_parsing::series_computation every computed series gets its linear-operator view", "", loc2(reg[0] if reg else sc))
     ini = [n for n in own_nodes(sc) if isinstance(n, ast.Assign) and norm(n.targets[0]) == "linear_operator_series"]
     ok = len(ini) == 1 and rtext(ini[0].value, {}) == "{_v0: linear_operator_wrapped(_v1) for _v0, _v1 in series.items()}"
     rep.check(ok, RULE, "algorithm_parsing::series_computation every input series gets its linear-operator view", "", loc2(ini[0] if ini else sc))
@@ -121,21 +154,17 @@ def rule_implicit_wiring(rep: Report, repo: Repo):
     if len(es) != 1:
         raise AnalysisError(RULE, "eval_scope not found")
     dd = {k.value: norm(v) for k, v in zip(es[0].value.keys, es[0].value.values) if isinstance(k, ast.Constant)}
-    ok = dd.get("series") == "series" and dd.get("linear_operator_series") == "linear_operator_series" and dd.get("del_") == "del_" \
-        and dd.get("use_linear_operator") == "np.zeros(shape, dtype=bool)" and dd.get("offdiag") == "None" \
-        and dd.get("zero") == "zero" and dd.get("Dagger") == "Dagger" and dd.get("_zero_sum") == "_zero_sum" and dd.get("_safe_divide") == "_safe_divide"
-    rep.check(ok, RULE, "algorithm_parsing::series_computation exec scope binds series / linear_operator_series / del_ / sentinels to the names the generated code uses",
+    ok = dd.get("use_linear_operator") == "np.zeros(shape, dtype=bool)" and dd.get("offdiag") == "None"
+    rep.check(ok, RULE, "algorithm_parsing::series_computation exec scope defaults: no block is a LinearOperator, no off-diagonal selection",
               "", loc2(es[0]))
+    # the names the generated code calls (series, del_, sentinels, Dagger, _zero_sum, _safe_divide): decided semantically
+    from .e9 import rule_exec_scope
+    rule_exec_scope(rep, repo)
     dg = dd.get("diag")
     rep.check(dg == "lambda x, index: x[index] if isinstance(x, BlockSeries) else x", RULE,
               "algorithm_parsing::series_computation default `diag` is the identity selection", str(dg), loc2(es[0]))
     # user scope overrides come last
     keys = es[0].value.keys
     rep.check(keys and keys[-1] is None, RULE, "algorithm_parsing::series_computation user scope is merged last (may override defaults)", "", loc2(es[0]))
-    # start data
-    data = [n for n in own_nodes(sc) if isinstance(n, ast.Assign) and norm(n.targets[0]) in ("zero_data", "identity_data")]
-    texts = {norm(n.targets[0]): norm(n.value) for n in data}
-    ok = texts.get("zero_data") == "{block + zeroth_order: zero for block in all_blocks}" and \
-        texts.get("identity_data") == "{block + zeroth_order: one for block in diagonal}"
-    rep.check(ok, RULE, "algorithm_parsing::series_computation start = 0 pins zero on every block, start = 1 pins the identity on diagonal blocks, at order zero",
-              str(texts), loc2(sc))
+    from .e9 import rule_start_data
+    rule_start_data(rep, repo, all_programs=False)
